@@ -16,12 +16,17 @@
      every instruction fails exactly when the Python code raises (stack underflow, ill-typed operand or
      literal, mutez overflow, FAILWITH, undeclared sections, network access without a shell);
      a cell that does not parse / match fails before executing anything ([CBad], invalid types).
-   * DIP { .. } and IF_NONE { .. } { .. } with nested bodies (failures at positions inside them).
-   Not modelled: stdout text, debug mode (re-raises by design), annotations, n-ary pair literals,
-   non-empty list literals, the other control instructions, PATCH-able context fields, big_map *values*
-   that themselves contain a big_map (pytezos' type check tests the key type by mistake; Tezos forbids
-   them; the model's UPDATE rejects them), and nested DIPs that reach below the bottom of the stack
-   (pytezos' stack.protect only checks the total length; see [mexec]). *)
+   * control instructions with nested bodies: DIP, DIP n, IF, IF_NONE, IF_CONS, LOOP, ITER and MAP over
+     lists of atoms, nested sequences; lambdas as values carrying code with LAMBDA / APPLY / EXEC; CONS;
+     PATCH AMOUNT / BALANCE / NOW.  Failures occur at any position inside the bodies, also inside a
+     lambda stored on the stack by an earlier cell.  LOOP iterations and EXEC depth are bounded by fuel;
+     running out of it is the distinguished result [RFuel], which the theorems exclude.
+   Not modelled: stdout text, debug mode (re-raises by design), annotations, n-ary pair literals, lists
+   of non-atoms, or / set / map and their instructions, LOOP_LEFT, LAMBDA_REC, lambda literals in PUSH,
+   PATCH of sender / source / chain_id, big_map *values* that themselves contain a big_map (pytezos'
+   type check tests the key type by mistake; Tezos forbids them; the model's UPDATE rejects them), and
+   nested DIPs that reach below the bottom of the stack (pytezos' stack.protect only checks the total
+   length; see [mexec]). *)
 From Coq Require Import List ZArith Bool Arith Lia.
 From Coq.Strings Require Import Byte.
 From Coq Require Import String.
